@@ -382,7 +382,7 @@ package parser
 // the number a ratio literal denotes: numerator over denominator, exactly, at any size
 //@ func (RatioLiteral).ToRatio
 //@   requires [numbers] r.Numerator != nil && r.Denominator != nil && val(r.Denominator) != 0
-//@   ensures [exact] {C06,C12,C13} result != nil && fresh(ref(result)) && rat(result) == fraction(val(r.Numerator), val(r.Denominator))
+//@   ensures [exact] {C06,C12,C13,C18} result != nil && fresh(ref(result)) && rat(result) == fraction(val(r.Numerator), val(r.Denominator))
 //@   modifies nothing
 
 //@ func (RatioLiteral).HasZeroDenominator
